@@ -85,6 +85,7 @@ func runC12(r *Rec) {
 			r.Fail("C12/import/panic", fmt.Sprintf("%s: InitChain from the application's own export panicked: %.300v", label, p), nil)
 			continue
 		}
+		c12Coverage(r, label, w, w2)
 		// ---- store-by-store comparison
 		ca := w.ReadCtx()
 		cb := w2.app.NewContext(false, w.hdr)
